@@ -523,9 +523,9 @@ package opset13
 //@   ensures value_float: len(n.Attribute) == 1 && n.Attribute[0].Name == "value_float" ==> err == nil && self.value != nil && rank(self.value) == 0 && dtype(self.value) == Float32
 //@   ensures value_int: len(n.Attribute) == 1 && n.Attribute[0].Name == "value_int" ==> err == nil && self.value != nil && rank(self.value) == 0 && dtype(self.value) == Int64
 //@   ensures value_floats: len(n.Attribute) == 1 && n.Attribute[0].Name == "value_floats" && len(n.Attribute[0].Floats) >= 1 ==> err == nil && self.value != nil && dtype(self.value) == Float32 &&
-//@          blen(self.value) == len(n.Attribute[0].Floats) && (forall k :: 0 <= k && k < len(n.Attribute[0].Floats) ==> telem(self.value, "float32", k) == n.Attribute[0].Floats[k])
+//@          rank(self.value) == 1 && dim(self.value, 0) == len(n.Attribute[0].Floats) && blen(self.value) == len(n.Attribute[0].Floats) && (forall k :: 0 <= k && k < len(n.Attribute[0].Floats) ==> telem(self.value, "float32", k) == n.Attribute[0].Floats[k])
 //@   ensures value_ints: len(n.Attribute) == 1 && n.Attribute[0].Name == "value_ints" && len(n.Attribute[0].Ints) >= 1 ==> err == nil && self.value != nil && dtype(self.value) == Int64 &&
-//@          blen(self.value) == len(n.Attribute[0].Ints) && (forall k :: 0 <= k && k < len(n.Attribute[0].Ints) ==> telem(self.value, "int64", k) == n.Attribute[0].Ints[k])
+//@          rank(self.value) == 1 && dim(self.value, 0) == len(n.Attribute[0].Ints) && blen(self.value) == len(n.Attribute[0].Ints) && (forall k :: 0 <= k && k < len(n.Attribute[0].Ints) ==> telem(self.value, "int64", k) == n.Attribute[0].Ints[k])
 //@   ensures unsupported_attribute_refused: len(n.Attribute) == 1 && n.Attribute[0].Name != "value" && n.Attribute[0].Name != "value_float" && n.Attribute[0].Name != "value_floats" &&
 //@          n.Attribute[0].Name != "value_int" && n.Attribute[0].Name != "value_ints" ==> err != nil
 
@@ -554,3 +554,165 @@ package opset13
 //@   ensures requested_shape: err == nil ==> len(result) == 1 && result[0] != nil && fresh(result[0]) && rank(result[0]) == blen(inputs[0]) &&
 //@          dtype(result[0]) == dtype(self.value) && (forall k :: 0 <= k && k < blen(inputs[0]) ==> dim(result[0], k) == telem(inputs[0], "int64", k))
 //@   loop 1 invariant forall k :: 0 <= k && k < $i ==> shape[k] >= 1
+
+// ---------------------------------------------------------------------------------------
+// C05: Conv geometry (defaults, auto_pad, output shape, zero padding, coverage of every output
+// position by the loop nests). The value at a position is gorgonia's Slice / Mul / Sum.
+
+//@ spec conv_out(in int, k int, pb int, pe int, s int) int = sdiv(in - k + pb + pe, s) + 1
+//@ spec conv_cfg_ok(self *Conv, n int) bool = len(self.kernelShape) == n && len(self.pads) == 2 * n && len(self.strides) == n &&
+//@        (forall i :: 0 <= i && i < n ==> self.kernelShape[i] >= 1 && self.strides[i] >= 1 && self.pads[i] >= 0 && self.pads[i + n] >= 0)
+
+//@ func (*Conv).setDefaultDilations
+//@   tags C05,C02
+//@   requires self != nil && x != nil && rank(x) >= 2
+//@   modifies self.dilations
+//@   ensures len(self.dilations) == rank(x) - 2 && fresh(self.dilations) && (forall i :: 0 <= i && i < rank(x) - 2 ==> self.dilations[i] == 1)
+//@   loop 1 invariant 0 <= i && i <= nDims && nDims == rank(x) - 2 && len(dilations) == nDims && fresh(dilations) && (forall k :: 0 <= k && k < i ==> dilations[k] == 1)
+
+//@ func (*Conv).setDefaultStrides
+//@   tags C05,C02
+//@   requires self != nil && x != nil && rank(x) >= 2
+//@   modifies self.strides
+//@   ensures len(self.strides) == rank(x) - 2 && fresh(self.strides) && (forall i :: 0 <= i && i < rank(x) - 2 ==> self.strides[i] == 1)
+//@   loop 1 invariant 0 <= i && i <= nDims && nDims == rank(x) - 2 && len(strides) == nDims && fresh(strides) && (forall k :: 0 <= k && k < i ==> strides[k] == 1)
+
+//@ func (*Conv).setDefaultPaddings
+//@   tags C05,C02
+//@   requires self != nil && x != nil && rank(x) >= 2
+//@   modifies self.pads
+//@   ensures len(self.pads) == 2 * (rank(x) - 2) && fresh(self.pads) && (forall i :: 0 <= i && i < 2 * (rank(x) - 2) ==> self.pads[i] == 0)
+//@   loop 1 invariant 0 <= i && i <= paddingLength && paddingLength == 2 * (rank(x) - 2) && len(pads) == paddingLength && fresh(pads) && (forall k :: 0 <= k && k < i ==> pads[k] == 0)
+
+//@ func (*Conv).setPaddingWithAutoPad
+//@   tags C05,C02
+//@   requires self != nil && x != nil && rank(x) >= 2 && len(self.strides) == rank(x) - 2 && len(self.kernelShape) == rank(x) - 2
+//@   requires forall i :: 0 <= i && i < rank(x) - 2 ==> self.strides[i] >= 1
+//@   modifies self.pads
+//@   ensures not_set_keeps_pads: self.autoPad == "NOTSET" ==> sameslice(self.pads, old(self.pads))
+//@   ensures same_total: (self.autoPad == "SAME_UPPER" || self.autoPad == "SAME_LOWER") ==> len(self.pads) == 2 * (rank(x) - 2) && (forall i :: 0 <= i && i < rank(x) - 2 ==>
+//@          self.pads[i] + self.pads[i + rank(x) - 2] == (sdiv(dim(x, 2 + i) + self.strides[i] - 1, self.strides[i]) - 1) * self.strides[i] + self.kernelShape[i] - dim(x, 2 + i))
+//@   ensures same_upper_split: self.autoPad == "SAME_UPPER" ==> (forall i :: 0 <= i && i < rank(x) - 2 ==>
+//@          self.pads[i] == sdiv(self.pads[i] + self.pads[i + rank(x) - 2], 2))
+//@   ensures same_lower_split: self.autoPad == "SAME_LOWER" ==> (forall i :: 0 <= i && i < rank(x) - 2 ==>
+//@          self.pads[i] == sdiv(self.pads[i] + self.pads[i + rank(x) - 2] + 1, 2))
+//@   loop 1 invariant 0 <= i && i <= nSpatialDims && nSpatialDims == rank(x) - 2 && len(self.pads) == 2 * nSpatialDims && fresh(self.pads) && base(self.pads) != shaperef(x) &&
+//@          base(self.pads) != base(self.strides) && base(self.pads) != base(self.kernelShape) && self.autoPad != "NOTSET" &&
+//@          len(self.strides) == nSpatialDims && len(self.kernelShape) == nSpatialDims && (forall k :: 0 <= k && k < nSpatialDims ==> self.strides[k] >= 1)
+//@   loop 1 invariant forall k :: 0 <= k && k < i ==>
+//@          self.pads[k] + self.pads[k + nSpatialDims] == (sdiv(dim(x, 2 + k) + self.strides[k] - 1, self.strides[k]) - 1) * self.strides[k] + self.kernelShape[k] - dim(x, 2 + k)
+//@   loop 1 invariant forall k :: 0 <= k && k < i ==> self.pads[k] == ite(self.autoPad == "SAME_LOWER", sdiv(self.pads[k] + self.pads[k + nSpatialDims] + 1, 2), sdiv(self.pads[k] + self.pads[k + nSpatialDims], 2))
+//@   ensures valid_means_no_padding: self.autoPad == "VALID" ==> len(self.pads) == 2 * (rank(x) - 2) && (forall i :: 0 <= i && i < 2 * (rank(x) - 2) ==> self.pads[i] == 0)
+
+//@ func (*Conv).getOutputShape
+//@   tags C05,C02
+//@   requires self != nil && x != nil && kernel != nil && rank(x) >= 2 && rank(kernel) >= 1 && conv_cfg_ok(self, rank(x) - 2)
+//@   ensures len(result) == rank(x) && fresh(result) && result[0] == dim(x, 0) && result[1] == dim(kernel, 0)
+//@   ensures spatial_extents: forall i :: 0 <= i && i < rank(x) - 2 ==>
+//@          result[2 + i] == conv_out(dim(x, 2 + i), self.kernelShape[i], self.pads[i], self.pads[i + rank(x) - 2], self.strides[i])
+//@   loop 1 invariant 0 <= i && i <= nSpatialDims && nSpatialDims == rank(x) - 2 && len(outputShape) == rank(x) && fresh(outputShape) &&
+//@          outputShape[0] == dim(x, 0) && outputShape[1] == dim(kernel, 0) &&
+//@          (forall k :: 0 <= k && k < i ==> outputShape[2 + k] == conv_out(dim(x, 2 + k), self.kernelShape[k], self.pads[k], self.pads[k + rank(x) - 2], self.strides[k]))
+
+//@ func (*Conv).padInput
+//@   tags C05,C02
+//@   requires self != nil && x != nil && rank(x) >= 2 && len(self.pads) == 2 * (rank(x) - 2) && (forall i :: 0 <= i && i < 2 * (rank(x) - 2) ==> self.pads[i] >= 0)
+//@   scope extents_positive: dims_positive(x)
+//@   ensures padded_shape: err == nil ==> result != nil && rank(result) == rank(x) && dtype(result) == dtype(x) && dim(result, 0) == dim(x, 0) && dim(result, 1) == dim(x, 1) &&
+//@          (forall i :: 0 <= i && i < rank(x) - 2 ==> dim(result, 2 + i) == dim(x, 2 + i) + self.pads[i] + self.pads[i + rank(x) - 2])
+//@   loop 1 invariant 0 <= i && i <= nSpatialDims && nSpatialDims == rank(x0) - 2 && x != nil && rank(x) == rank(x0) && dtype(x) == dtype(x0) && dims_positive(x) &&
+//@          dim(x, 0) == dim(x0, 0) && dim(x, 1) == dim(x0, 1)
+//@   loop 1 invariant len(self.pads) == 2 * nSpatialDims && (forall k :: 0 <= k && k < 2 * nSpatialDims ==> self.pads[k] >= 0)
+//@   loop 1 invariant forall k :: 0 <= k && k < i ==> dim(x, 2 + k) == dim(x0, 2 + k) + self.pads[k] + self.pads[k + nSpatialDims]
+//@   loop 1 invariant forall k :: i <= k && k < nSpatialDims ==> dim(x, 2 + k) == dim(x0, 2 + k)
+
+//@ func (*Conv).getSubImage
+//@   tags C05,C02
+//@   ensures new_result: err == nil ==> result != nil && fresh(result)
+
+//@ spec conv2d_geom(self *Conv, x tensor.Tensor, px tensor.Tensor, oh int, ow int) bool = px != nil && rank(px) == 4 &&
+//@        self.strides[0] == old(self.strides[0]) && self.strides[1] == old(self.strides[1]) && old(self.strides[0]) >= 1 && old(self.strides[1]) >= 1 &&
+//@        old(self.kernelShape[0]) >= 1 && old(self.kernelShape[1]) >= 1 && old(dim(x, 2)) >= 1 && old(dim(x, 3)) >= 1 && old(self.pads[0]) >= 0 && old(self.pads[1]) >= 0 &&
+//@        old(self.pads[2]) >= 0 && old(self.pads[3]) >= 0 &&
+//@        dim(px, 2) == old(dim(x, 2) + self.pads[0] + self.pads[2]) && dim(px, 3) == old(dim(x, 3) + self.pads[1] + self.pads[3]) &&
+//@        oh == old(conv_out(dim(x, 2), self.kernelShape[0], self.pads[0], self.pads[2], self.strides[0])) &&
+//@        ow == old(conv_out(dim(x, 3), self.kernelShape[1], self.pads[1], self.pads[3], self.strides[1]))
+
+//@ func (*Conv).applyConv2D
+//@   tags C05,C02
+//@   requires self != nil && x != nil && kernel != nil && rank(x) == 4 && rank(kernel) == 4 && conv_cfg_ok(self, 2)
+//@   scope extents_positive: dims_positive(x) && dims_positive(kernel)
+//@   ensures output_shape: err == nil ==> result != nil && fresh(result) && rank(result) == 4 && dtype(result) == dtype(x) && dim(result, 0) == dim(x, 0) && dim(result, 1) == dim(kernel, 0) &&
+//@          dim(result, 2) == conv_out(dim(x, 2), self.kernelShape[0], self.pads[0], self.pads[2], self.strides[0]) &&
+//@          dim(result, 3) == conv_out(dim(x, 3), self.kernelShape[1], self.pads[1], self.pads[3], self.strides[1])
+//@   loop 1 invariant 0 <= batchIdx && conv_cfg_ok(self, 2) && out != nil && fresh(out) && conv2d_geom(self, x, paddedX, outputHDim, outputWDim)
+//@   loop 2 invariant 0 <= kernelIdx && conv_cfg_ok(self, 2) && conv2d_geom(self, x, paddedX, outputHDim, outputWDim)
+//@   loop 3 invariant 0 <= h && conv_cfg_ok(self, 2) && conv2d_geom(self, x, paddedX, outputHDim, outputWDim)
+//@   loop 4 invariant 0 <= w && conv_cfg_ok(self, 2) && conv2d_geom(self, x, paddedX, outputHDim, outputWDim)
+//@   loop 3 exit assert rows_covered: h >= (outputHDim - 1) * self.strides[0] + 1
+//@   loop 4 exit assert columns_covered: w >= (outputWDim - 1) * self.strides[1] + 1
+
+//@ spec conv1d_geom(self *Conv, x tensor.Tensor, px tensor.Tensor, oh int, stride int) bool = px != nil && rank(px) == 3 &&
+//@        stride == old(self.strides[0]) && old(self.strides[0]) >= 1 && old(self.kernelShape[0]) >= 1 && old(dim(x, 2)) >= 1 && old(self.pads[0]) >= 0 && old(self.pads[1]) >= 0 &&
+//@        dim(px, 2) == old(dim(x, 2) + self.pads[0] + self.pads[1]) &&
+//@        oh == old(conv_out(dim(x, 2), self.kernelShape[0], self.pads[0], self.pads[1], self.strides[0]))
+
+//@ func (*Conv).applyConv1D
+//@   tags C05,C02
+//@   requires self != nil && x != nil && kernel != nil && rank(x) == 3 && rank(kernel) == 3 && conv_cfg_ok(self, 1)
+//@   scope extents_positive: dims_positive(x) && dims_positive(kernel)
+//@   ensures output_shape: err == nil ==> result != nil && fresh(result) && rank(result) == 3 && dtype(result) == dtype(x) && dim(result, 0) == dim(x, 0) && dim(result, 1) == dim(kernel, 0) &&
+//@          dim(result, 2) == conv_out(dim(x, 2), self.kernelShape[0], self.pads[0], self.pads[1], self.strides[0])
+//@   loop 1 invariant 0 <= batchIdx && conv_cfg_ok(self, 1) && out != nil && fresh(out) && conv1d_geom(self, x, paddedX, outputHDim, strideSize)
+//@   loop 2 invariant 0 <= kernelIdx && conv_cfg_ok(self, 1) && conv1d_geom(self, x, paddedX, outputHDim, strideSize)
+//@   loop 3 invariant 0 <= h && conv_cfg_ok(self, 1) && conv1d_geom(self, x, paddedX, outputHDim, strideSize)
+//@   loop 3 exit assert positions_covered: h >= (outputHDim - 1) * strideSize + 1
+
+//@ func (*Conv).addBias
+//@   tags C05,C02
+//@   requires self != nil && out != nil && bias != nil && rank(out) >= 2 && rank(bias) == 1
+//@   scope extents_positive: dims_positive(out) && dims_positive(bias)
+//@   ensures same_shape_as_output: err == nil ==> result != nil && same_shape(result, out)
+//@   ensures channel_mismatch_refused: dim(bias, 0) != dim(out, 1) && dim(bias, 0) != 1 ==> err != nil
+//@   loop 1 invariant 0 <= i && len(biasShape) == rank(out) && fresh(biasShape) && base(biasShape) != 0 && (forall k :: 0 <= k && k < i ==> biasShape[k] == 1)
+
+//@ func (*Conv).getDilatedKernel
+//@   tags C05,C02
+//@   requires self != nil && kernel != nil && rank(kernel) >= 2 && len(self.dilations) == rank(kernel) - 2 && (forall i :: 0 <= i && i < rank(kernel) - 2 ==> self.dilations[i] >= 1)
+//@   scope extents_positive: dims_positive(kernel)
+//@   modifies self.kernelShape
+//@   ensures dilated_shape: err == nil ==> result != nil && fresh(result) && rank(result) == rank(kernel) && dtype(result) == dtype(kernel) && dim(result, 0) == dim(kernel, 0) && dim(result, 1) == dim(kernel, 1) &&
+//@          (forall i :: 0 <= i && i < rank(kernel) - 2 ==> dim(result, 2 + i) == dim(kernel, 2 + i) + (dim(kernel, 2 + i) - 1) * (self.dilations[i] - 1))
+//@   ensures kernel_shape_recorded: err == nil ==> len(self.kernelShape) == rank(kernel) - 2 && (forall i :: 0 <= i && i < rank(kernel) - 2 ==> self.kernelShape[i] == dim(result, 2 + i))
+//@   loop 1 invariant 0 <= i && i <= 2 && len(newKernelShape) == rank(kernel) && fresh(newKernelShape) && base(newKernelShape) != 0 && (forall k :: 0 <= k && k < i ==> newKernelShape[k] == dim(kernel, k))
+//@   loop 2 invariant len(newKernelShape) == rank(kernel) && fresh(newKernelShape) && base(newKernelShape) != 0 && newKernelShape[0] == dim(kernel, 0) && newKernelShape[1] == dim(kernel, 1) &&
+//@          (forall k :: 0 <= k && k < $i ==> newKernelShape[2 + k] == dim(kernel, 2 + k) + (dim(kernel, 2 + k) - 1) * (self.dilations[k] - 1))
+//@   loop 3 invariant newKernel != nil && fresh(newKernel) && rank(newKernel) == rank(kernel) && dtype(newKernel) == dtype(kernel) &&
+//@          (forall k :: 0 <= k && k < rank(kernel) ==> dim(newKernel, k) == newKernelShape[k])
+
+//@ func (*Conv).getNewCoordsAfterDilation
+//@   tags C05,C02
+//@   ensures new_slice: result == nil || fresh(result)
+
+//@ func (*Conv).Apply
+//@   tags C05,C02
+//@   requires self != nil && len(inputs) == 3 && inputs[0] != nil && inputs[1] != nil
+//@   scope well_configured: dims_positive(inputs[0]) && dims_positive(inputs[1]) && rank(inputs[1]) == rank(inputs[0]) && rank(inputs[0]) >= 2 &&
+//@          (len(self.dilations) == 0 || len(self.dilations) == rank(inputs[0]) - 2) && (forall i :: 0 <= i && i < len(self.dilations) ==> self.dilations[i] >= 1) &&
+//@          (len(self.strides) == 0 || len(self.strides) == rank(inputs[0]) - 2) && (forall i :: 0 <= i && i < len(self.strides) ==> self.strides[i] >= 1) &&
+//@          (len(self.pads) == 0 || len(self.pads) == 2 * (rank(inputs[0]) - 2)) && (forall i :: 0 <= i && i < len(self.pads) ==> self.pads[i] >= 0) &&
+//@          (inputs[2] != nil ==> rank(inputs[2]) == 1 && dims_positive(inputs[2])) && self.autoPad == "NOTSET"
+//@   modifies opstate(self)
+//@   ensures unsupported_rank_refused: rank(inputs[0]) != 3 && rank(inputs[0]) != 4 ==> err != nil
+//@   ensures output_shape_2d: err == nil && rank(inputs[0]) == 4 && self.autoPad == "NOTSET" ==> len(result) == 1 && result[0] != nil && rank(result[0]) == 4 &&
+//@          dim(result[0], 0) == dim(inputs[0], 0) && dim(result[0], 1) == dim(inputs[1], 0) &&
+//@          dim(result[0], 2) == conv_out(dim(inputs[0], 2), self.kernelShape[0], self.pads[0], self.pads[2], self.strides[0]) &&
+//@          dim(result[0], 3) == conv_out(dim(inputs[0], 3), self.kernelShape[1], self.pads[1], self.pads[3], self.strides[1])
+//@   ensures output_shape_1d: err == nil && rank(inputs[0]) == 3 && self.autoPad == "NOTSET" ==> len(result) == 1 && result[0] != nil && rank(result[0]) == 3 &&
+//@          dim(result[0], 0) == dim(inputs[0], 0) && dim(result[0], 1) == dim(inputs[1], 0) &&
+//@          dim(result[0], 2) == conv_out(dim(inputs[0], 2), self.kernelShape[0], self.pads[0], self.pads[1], self.strides[0])
+//@   ensures effective_kernel_extent: err == nil ==> len(self.kernelShape) == rank(inputs[0]) - 2 && len(self.dilations) == rank(inputs[0]) - 2 &&
+//@          (forall i :: 0 <= i && i < rank(inputs[0]) - 2 ==> self.kernelShape[i] == dim(inputs[1], 2 + i) + (dim(inputs[1], 2 + i) - 1) * (self.dilations[i] - 1))
+//@   ensures defaults: err == nil ==> (old(len(self.strides)) == 0 ==> (forall i :: 0 <= i && i < rank(inputs[0]) - 2 ==> self.strides[i] == 1)) &&
+//@          (old(len(self.dilations)) == 0 ==> (forall i :: 0 <= i && i < rank(inputs[0]) - 2 ==> self.dilations[i] == 1)) &&
+//@          (old(len(self.pads)) == 0 && self.autoPad == "NOTSET" ==> (forall i :: 0 <= i && i < 2 * (rank(inputs[0]) - 2) ==> self.pads[i] == 0))
